@@ -41,6 +41,9 @@ type GenConfig struct {
 	// (enum + integer, string + date, record + record, ...); 0 = cases are drawn independently.
 	KindPairPct int
 
+	// AliasKeyPct: chance (percent) that a map key is a named alias of a primitive when one is in scope.
+	AliasKeyPct int
+
 	// ArgRefPct: chance (percent) that a generic argument is a reference to a non-generic named
 	// type (record, enum, alias) instead of the default mix; 0 keeps the default distribution.
 	ArgRefPct int
@@ -48,7 +51,7 @@ type GenConfig struct {
 
 func DefaultGen() GenConfig {
 	return GenConfig{MaxDefs: 8, MaxImports: 2, MaxProtocols: 2, MaxSteps: 6, MaxDepth: 3, MaxFiles: 3,
-		Generics: true, Computed: true, Comments: true, SharedNamesPct: 25, Excl: map[string]bool{}, ExclCount: map[string]int{}}
+		Generics: true, Computed: true, Comments: true, SharedNamesPct: 25, AliasKeyPct: 15, Excl: map[string]bool{}, ExclCount: map[string]int{}}
 }
 
 func (c *GenConfig) excluded(f string) bool {
@@ -354,6 +357,23 @@ func (g *gen) unionCaseOK(c *Type) bool {
 }
 
 func (g *gen) mapKey() *Type {
+	// now and then the key is a named alias of a primitive (`Key: string`)
+	if g.cfg.AliasKeyPct > 0 && g.chance("mapKeyAlias", g.cfg.AliasKeyPct) {
+		var cands []scopeDef
+		for _, sd := range g.avail {
+			if sd.def.Kind == DAlias && len(sd.def.TypeParams) == 0 && sd.def.Type != nil && sd.def.Type.Kind == KPrim {
+				for _, k := range keyPrimsRuntime {
+					if k == sd.def.Type.Prim {
+						cands = append(cands, sd)
+					}
+				}
+			}
+		}
+		if len(cands) > 0 {
+			sd := cands[g.intn("mapKeyAliasIdx", len(cands))]
+			return Ref(sd.ns, sd.def.Name)
+		}
+	}
 	if g.cfg.Runtime {
 		return Prim(keyPrimsRuntime[g.intn("mapKeyR", len(keyPrimsRuntime))])
 	}
